@@ -45,6 +45,8 @@ def labels(draw, n, kind=None, order=None, kinds="ifs"):
         c = draw(st.integers(0, 7))
         if c == 0:
             vals = [2000.0 + k / 100.0 for k in ks]       # large magnitude, small spacing (relative differences of 5e-6)
+        elif c == 3 and n:
+            vals = [float(i) for i in draw(st.permutations(list(range(n))))]      # 0.0 .. n-1.0: float labels that look like default positions
         else:
             vals = [k / 10.0 for k in ks] if c in (1, 2) else [k / 4.0 for k in ks]
     else:
